@@ -58,6 +58,7 @@ def prove(ob, func, hyp, goal, kind="deciding", timeout_s=10.0, model_vars=None,
     r = discharge(hyp, goal, timeout_s=timeout_s, model_vars=model_vars)
     if kind in ("canary", "cover"):
         _solve.VIOLATION_BUDGET["left"] = saved
+        _solve.UNKNOWN_BUDGET["left"] = max(_solve.UNKNOWN_BUDGET["left"], 1)
     extra = {}
     if r["status"] == "violated" and known:
         hits = []
@@ -145,6 +146,7 @@ def _worker(args):
         mod = importlib.import_module(modname)
         from . import solve as _solve
         _solve.VIOLATION_BUDGET["left"] = 4
+        _solve.UNKNOWN_BUDGET["left"] = 6
         res = mod.run_case(case_id, tier, seed)
         return dict(case=case_id, results=res, wall=time.time() - t0, crash=None)
     except CaseTimeout:
@@ -159,6 +161,62 @@ def _worker(args):
             signal.alarm(0)
         except Exception:
             pass
+
+
+def _run_parallel(jobs, nproc, tier):
+    """One fresh forked process per case (no cross-case state).  The parent enforces the wall-clock budget of a case with
+    SIGKILL, because a solver call that ignores its own timeout cannot be interrupted from inside the child."""
+    import pickle
+    import signal
+    import tempfile
+    limit = int(os.environ.get("VERIF_CASE_TIMEOUT", "900" if tier == "quick" else "5400")) + 60
+    pending = list(enumerate(jobs))
+    running = {}
+    outs = [None] * len(jobs)
+    tmpd = tempfile.mkdtemp(prefix="vcheck_")
+    try:
+        while pending or running:
+            while pending and len(running) < nproc:
+                idx, job = pending.pop(0)
+                path = os.path.join(tmpd, f"{idx}.pkl")
+                sys.stdout.flush()
+                pid = os.fork()
+                if pid == 0:
+                    code = 0
+                    try:
+                        o = _worker(job)
+                        with open(path + ".tmp", "wb") as fh:
+                            pickle.dump(o, fh)
+                        os.rename(path + ".tmp", path)
+                    except BaseException:  # noqa
+                        code = 1
+                    finally:
+                        os._exit(code)
+                running[pid] = (idx, time.time(), path, job)
+            for pid in list(running):
+                idx, t0, path, job = running[pid]
+                r, status = os.waitpid(pid, os.WNOHANG)
+                if r == pid:
+                    del running[pid]
+                    if os.path.exists(path):
+                        with open(path, "rb") as fh:
+                            outs[idx] = pickle.load(fh)
+                    else:
+                        outs[idx] = dict(case=job[1], results=[], wall=time.time() - t0, crash=f"case process ended without a result (status {status})")
+                elif time.time() - t0 > limit:
+                    try:
+                        os.kill(pid, signal.SIGKILL)
+                        os.waitpid(pid, 0)
+                    except OSError:
+                        pass
+                    del running[pid]
+                    outs[idx] = dict(case=job[1], wall=time.time() - t0, crash=None,
+                                     results=[result(f"case-wall-clock-budget[{job[1]}]", job[0], "unknown", text=f"case killed after {limit}s (solver call did not return)", case=job[1])])
+            time.sleep(0.02)
+    finally:
+        import shutil
+        shutil.rmtree(tmpd, ignore_errors=True)
+    return outs
 
 
 def _safe(name):
@@ -187,9 +245,7 @@ def run_check(modname, tier="quick", seed=0, update_ledger=False, only_case=None
     nproc = int(os.environ.get("VERIF_JOBS", "16"))
     jobs = [(modname, c, tier, seed) for c in cases]
     if nproc > 1 and len(jobs) > 1:
-        ctx = mp.get_context("fork")
-        with ctx.Pool(min(nproc, len(jobs)), maxtasksperchild=1) as pool:  # one fresh forked process per case: no cross-case state
-            outs = pool.map(_worker, jobs, chunksize=1)
+        outs = _run_parallel(jobs, min(nproc, len(jobs)), tier)
     else:
         outs = [_worker(j) for j in jobs]
 
@@ -199,15 +255,18 @@ def run_check(modname, tier="quick", seed=0, update_ledger=False, only_case=None
         return bool(o["crash"]) or any(r["status"] == "unknown" and r["kind"] in ("deciding", "canary", "cover") for r in o["results"]) or \
             any(r["kind"] == "canary" and r["status"] != "violated" for r in o["results"])
     retried = []
-    for i, o in enumerate(outs):
-        if _shaky(o) and not any(r["status"] == "violated" and r["kind"] == "deciding" for r in o["results"]):
-            os.environ["VERIF_TIMEOUT_SCALE"] = "3"
-            try:
-                o2 = _worker((modname, o["case"], tier, seed))
-            finally:
-                os.environ.pop("VERIF_TIMEOUT_SCALE", None)
-            retried.append(o["case"])
-            if not o2["crash"] or o["crash"]:
+    idxs = [i for i, o in enumerate(outs) if _shaky(o) and not any(r["status"] == "violated" and r["kind"] == "deciding" for r in o["results"])
+            and not any(r["ob"].startswith("case-wall-clock-budget") for r in o["results"])]
+    if idxs:
+        os.environ["VERIF_TIMEOUT_SCALE"] = "3"
+        try:
+            rjobs = [(modname, outs[i]["case"], tier, seed) for i in idxs]
+            routs = _run_parallel(rjobs, max(1, min(4, len(rjobs))), tier) if nproc > 1 else [_worker(j) for j in rjobs]
+        finally:
+            os.environ.pop("VERIF_TIMEOUT_SCALE", None)
+        for i, o2 in zip(idxs, routs):
+            retried.append(outs[i]["case"])
+            if not o2["crash"] or outs[i]["crash"]:
                 outs[i] = o2
     crashes = [o for o in outs if o["crash"]]
     results = [r for o in outs for r in o["results"]]
